@@ -393,8 +393,13 @@ def gen_script(rng, model, profile, allow_ret1=True):
             if rng.chance(1, 3) and retwords:           # chain on another task's return word
                 pcs[rng.below(n)] = rng.choice(list(retwords.values()))
             retmode = rng.weighted([(0, 5), (2, 3)] + ([(1, 3)] if allow_ret1 else []))
+            # return words are distinct per task: the order in which launched tasks run is the scheduler's (C08),
+            # their return writes must therefore commute
+            freew = [x for x in range(nw) if x not in retwords.values()]
+            if retmode and not freew:
+                retmode = 0
             variant = rng.weighted([(0, 4), (1, 2), (3, 3)] + ([(2, 2)] if retmode == 0 else []))
-            retw = rng.below(nw) if retmode else 0
+            retw = rng.choice(freew) if retmode else 0
             if retmode:
                 retwords[k] = retw
             ln = "p %d %d %d %d %d %d %d %s" % (tid, k, variant, retmode, retw, val(), n, " ".join(map(str, pcs)))
